@@ -242,6 +242,10 @@ def check_exports(tree, start, rec, typed, nt=True, variant="to_dot", prior_abor
                     fd, path = tempfile.mkstemp(prefix="verif_c17_", suffix=".gv")
                     os.close(fd)
                     try:
+                        if len(w.pre) % 2:
+                            # the target exists and holds an older, longer export: it is replaced, not patched
+                            with open(path, "w") as fp:
+                                fp.write("digraph Old {\n" + "".join(f"  {i} -> {i + 1};\n" for i in range(400)) + "}\n")
                         tree.to_dotfile(path if unique else Path(path), add_root=with_root, unique_nodes=unique)
                         with open(path) as fp:
                             text = fp.read()
